@@ -1,5 +1,7 @@
 #include "ccl/lang/Reference.h"
 
+#include <limits>
+
 // TODO: Use format library for GCC when available (GCC13+)
 #if !defined(__GNUC__) && !defined(__clang__)
 #include <format>
@@ -132,9 +134,12 @@ Reference Reference::Parse(std::string_view refStr) {
     return Reference{ EntityRef{ std::string{ tokens.at(EntityRef::TR_ENTITY) }, std::move(form) } };
   }
   case ReferenceType::collaboration: {
+    const auto offset = stoi(std::string{ tokens.at(CollaborationRef::CR_OFFSET) });
+    if (offset < std::numeric_limits<int16_t>::min() || offset > std::numeric_limits<int16_t>::max()) {
+      return {};
+    }
     return Reference{ 
-      CollaborationRef{ std::string{ tokens.at(CollaborationRef::CR_TEXT) },
-      static_cast<int16_t>(stoi(std::string{ tokens.at(CollaborationRef::CR_OFFSET) })) } 
+      CollaborationRef{ std::string{ tokens.at(CollaborationRef::CR_TEXT) }, static_cast<int16_t>(offset) }
     };
   }
   default:
